@@ -19,13 +19,16 @@ def run(tier, replay_path=None):
         r["names"] = names; r["variants"] = variants
     recs.append({"id": len(recs) + 1, "kind": "matrix", "m": [r["eq"] for r in recs]})
     verdicts, vt = validate("ValEqTrace", recs, os.path.join(wd, "tv"), jvms=4)
-    nontriv = 0
+    nontriv = drift = 0
     for v in verdicts:
         for k in sorted(set(v["keys"])):
             V.fail(k, {"row": v["id"], "name": names[v["id"] - 1] if v["id"] <= len(names) else "matrix"})
         nontriv += 1 if v["nt"] else 0
+        if not v["exact"]:
+            drift += 1
+            if drift <= 3: V.note("DRIFT: C18 equality of %s differs from the payload classes of ValueEq.tla on a pair the property leaves open" % names[v["id"] - 1])
     cov = {"states": mc.distinct, "transitions": mc.generated, "traces_validated_against_impl": len(verdicts),
            "evaluations": len(names) * len(names), "distinct_nontrivial": nontriv,
            "rule": "pool = %d values: every variant (core + json, chrono, time, decimal, bigdecimal, uuid, ipnetwork, mac address, arrays) with NULLs, +0/-0, three NaN payloads, infinities, JSON objects differing in key order, decimals differing in scale, equal and reversed arrays, nested arrays, NaN inside arrays; TLC checks reflexivity / symmetry / transitivity / variant separation / Eq => equal hash key on all %d triples of the model and validates the real ==, Hash (DefaultHasher), HashSet membership and ValueTuple equality of every pair; symmetry and transitivity also on the recorded matrix; non-trivial = row with an equal partner other than itself" % (len(names), mc.distinct),
-           "samples": [{"name": names[i], "equal_to": [names[j] for j, e in enumerate(recs[i]["eq"]) if e]} for i in (9, 19, 45)], "exhaustive": True}
+           "samples": [{"name": names[i], "equal_to": [names[j] for j, e in enumerate(recs[i]["eq"]) if e]} for i in (9, 19, 45)], "exhaustive": True, "impl_model_exact": drift == 0, "drift": drift}
     return std_finish(pid, tier, t0, V, cov, ["payload classes of the pool as named in ValueEq.tla (OrderedFloat, serialised JSON, numeric decimal equality)", "pgvector::Vector is not in the pool"])
